@@ -29,6 +29,11 @@ CLAIMED = {
    note="Trusted: TLC, Modifiers.tla as rendering of the Sigma specification + pySigma documentation; outcomes the documents leave open are Unspecified (possibly invalid regex text, wide/utf16 (C04), numeric modifier after a timestamp part, fieldref of escaped characters, CIDR texts outside the seed table).",
    technique="TLA+ modifier chain state machine model-checked with TLC; TLC-generated chains replayed into the code; TLC judges recorded item state",
    ref="6/C03"),
+ "C01": dict(level=MC,
+   text="TLC model-checks MC_Render: the grouping design of TextQueryBackend (compare_precedence / convert_condition_or|and|not|group, transcribed as a token-by-token rendering state machine) is sound for every boolean tree <=2/3 operators x all 6 target precedence orders x parenthesize - the rendered text, read back with the TARGET grammar (spec/QueryLang.tla, Pratt evaluator driven by K.prec), has the tree's truth table. TLC-generated (rule, configuration) pairs are converted by the real backend code through a /verif backend subclass that only sets class data; TLC parses each emitted query from raw code points and compares it, over all truth assignments of the canonical atoms (field, match kind, decoded value), with the rule's meaning derived from its source form (spec/Detection.tla + Modifiers + CondLang).",
+   note="Trusted: TLC; Detection/Modifiers/CondLang as the reference semantics of Sigma; QueryLang as the semantics of the /verif target syntax; the backend family's templates (harness/backend.py, class data only). Atoms are compared syntactically after canonicalisation (startswith/endswith/contains/in-list/not-equals/not-exists spellings decode to the same atom), i.e. distinct atoms are treated as independent. Three recorded deviations (raw field in native CIDR; two in not-equals mode).",
+   technique="TLA+ models of rule semantics and of the target query language; design model-checked with TLC; TLC-generated rules x configurations replayed into the converter; TLC parses and judges every emitted query by truth table",
+   ref="6/C01"),
 }
 REASON_NOT_BUILT = "check not built yet in this round (see DESIGN.md section 6 for the planned TLA+ model); not claimed until its judge is sound"
 ALL = [f"C{i:02d}" for i in range(1, 21)]
